@@ -91,6 +91,7 @@ func genC03Program(r *R, ex map[string]bool) *Program {
 	row := func(a, b, c int, d string) *Val {
 		return &Val{T: "map", M: []KV{{"b", num(b)}, {"a", num(a)}, {"d", str(d)}, {"c", num(c)}}}
 	}
+	ctx.M = append(ctx.M, KV{"zam", &Val{T: "map", M: []KV{{"m", str("vm")}, {"z", str("vz")}, {"a", str("va")}}}})
 	ctx.M = append(ctx.M, KV{"rows", &Val{T: "list", L: []*Val{row(1, 9, 5, "x"), row(2, 3, 5, "w"), row(0, 7, 6, "z"), row(2, 1, 4, "y")}}})
 	maps := []string{"m1", "m2", "mi", "p1.Meta", "nm", "nm.b", "si", "mx", "cs", "cs2", "fm", "bm", "km", "gm", "gp.Meta", "em", "nk", "tie", "ties", "tie", "ties"}
 	hashLit := func() string {
@@ -116,7 +117,7 @@ func genC03Program(r *R, ex map[string]bool) *Program {
 		return pick(r, maps)
 	}
 	seg := func() string {
-		switch r.N(23) {
+		switch r.N(24) {
 		case 0, 1:
 			return "{% for k, v in " + anyMap() + " %}{{ k }}={{ v|json_encode }}|{{ loop.index }};{% endfor %}"
 		case 2:
@@ -180,6 +181,10 @@ func genC03Program(r *R, ex map[string]bool) *Program {
 			// orderings, so that a comparison which walks the hashes must walk them in a fixed order
 			l := pick(r, []string{"rows", "rows", "[{'x': 2, 'y': 1}, {'x': 1, 'y': 2}, {'y': 0, 'x': 3}]", "rows|reverse", "l2"})
 			return "{{ " + l + "|" + pick(r, []string{"sort|json_encode", "sort|first|json_encode", "sort|last|json_encode", "sort|reverse|json_encode", "sort|slice(0, 2)|json_encode", "first|json_encode"}) + " }}"
+		case 23:
+			// a hash literal written out of order, and a caller's map with exactly the same key set, in one render
+			lit := pick(r, []string{"{'z': 1, 'm': 2, 'a': 3}", "{'m': n1, 'z': s1, 'a': 0}", "{'z': 'Z', 'a': 'A', 'm': 'M'}"})
+			return "{% for k, v in " + lit + " %}{{ k }}{% endfor %}{{ (" + lit + ")|keys|join('') }}{% for k, v in zam %}{{ k }}={{ v }};{% endfor %}{{ zam|first }}{{ zam|keys|join(',') }}{{ zam|merge(" + lit + ")|keys|join(',') }}"
 		case 22:
 			// the same name bound twice in one construct: which binding wins must be decided by the source text
 			return pick(r, []string{
